@@ -151,3 +151,88 @@ def is_right_fold(tree, leaves):
     for x in reversed(leaves[:-1]):
         acc = Opaque("f", (x, acc))
     return tree == acc
+
+
+# ---------------------------------------------------------------------------- multi-index selection
+class VecModel:
+    """a vector object whose __getitem__ on tuples is interpreted from the source under analysis and whose
+    int / slice selection is the primitive one."""
+
+    def __init__(self, bv, interp_factory, qualname):
+        self.bv = bv
+        self._factory = interp_factory
+        self._q = qualname
+
+    def __getitem__(self, key):
+        if isinstance(key, (tuple, list)):
+            return self._factory().call_function(self._q, self, key)
+        if isinstance(key, slice):
+            return self.bv.slice(key.start, key.stop)
+        if isinstance(key, int):
+            return BV([self.bv.bits[key]], "BitVector")
+        raise AnalysisError(f"VecModel index {key!r}")
+
+
+def multi_index_cases(idx, rel, qualname, replacement=False):
+    """interpret the tuple branch of a __getitem__ implementation; -> [(key, expected bits, got)]"""
+    mod = idx.mod(rel)
+    out = []
+    x = BV.sym("x", 8)
+    keys = [(slice(7, 6), 0, 2), (1, slice(5, 3)), (slice(3, 0),), (0, 1, 2, 3), (7,), (slice(7, 4), slice(3, 2), 0)]
+    for key in keys:
+        prims = base_prims()
+        prims["slice"] = slice
+
+        def getattr_(base, attr):
+            if isinstance(base, VecModel) and attr == "__getitem__":
+                return base.__getitem__
+            raise AnalysisError(f"absint: attribute {attr} of {base!r}")
+        prims["__getattr__"] = getattr_
+        prims["__matmul__"] = lambda l, r: l.concat(r) if isinstance(l, BV) and isinstance(r, BV) else (_ for _ in ()).throw(AnalysisError("concat of non-vectors"))
+        captured = {}
+
+        class IntrOp(dict):
+            pass
+        prims["intr_op"] = {"_IntrinsicSynthesizableFunctionCall": lambda fn, args, kwargs: ("call", fn, args, kwargs)}
+
+        def factory():
+            return Interp(mod, prims)
+        me = VecModel(x, factory, qualname)
+        exp = []
+        for k in reversed(key):
+            if isinstance(k, slice):
+                exp.extend(x.bits[k.stop:k.start + 1])
+            else:
+                exp.append(x.bits[k])
+        try:
+            got = factory().call_function(qualname, me, key)
+            if isinstance(got, tuple) and got and got[0] == "call":
+                got = got[1](*got[2], **got[3])
+        except Reject as r:
+            got = f"rejected: {r}"
+        out.append((key, exp, got))
+    return mod, out
+
+
+def run_multi_index_rule(run, rule_id="C09.d"):
+    run.begin(
+        rule_id,
+        "multi-index selection v[i0, i1, ...] - compile-time (BitVector.__getitem__), qualified (TypeQualifier.__getitem__) and "
+        "run-time (__getitem_replacement) implementations, interpreted on a symbolic 8-bit vector: the first index forms "
+        "the most significant part of the result, in all three",
+        floor=15,
+    )
+    sites = [
+        ("cohdl/_core/_bit_vector.py", "BitVector.__getitem__", "compile-time"),
+        ("cohdl/_core/_type_qualifier.py", "TypeQualifier.__getitem__", "qualified"),
+        ("cohdl/_core/_type_qualifier.py", "TypeQualifier.__getitem_replacement", "run-time"),
+    ]
+    for rel, q, label in sites:
+        mod, cases = multi_index_cases(run.idx, rel, q)
+        f = mod.func(q)
+        for key, exp, got in cases:
+            ok = isinstance(got, BV) and list(got.bits) == list(exp)
+            ks = ",".join(f"{k.start}:{k.stop}" if isinstance(k, slice) else str(k) for k in key)
+            run.ob(ok, q, file=rel, line=f.node.lineno, detail=f"{label}[{ks}]", expected="<" + " ".join(map(repr, reversed(exp))) + "> (first index on top)",
+                   found=repr(got)[:110], sample=(ks == "7:6,0,2"))
+    run.end()
